@@ -544,6 +544,50 @@ class Extractor:
                 break
         return toks
 
+    # ---- R16: a pattern in parameter position -> a plain parameter and a `let` of the pattern at the top of the body
+    def normalise_param_patterns(self, ftoks):
+        """`fn f(.., PAT: T, ..) { B }` with an irrefutable non-identifier PAT (a tuple such as `(start, end)`) is by definition
+        `fn f(.., p: T, ..) { let PAT = p; B }`; Verus accepts only identifier parameters, even on an external_body signature."""
+        items = split_items(ftoks, 0, len(ftoks))
+        if len(items) != 1 or items[0].kind != 'fn' or items[0].body_open < 0: return ftoks
+        it = items[0]
+        try: fp = fn_parts(ftoks, it)
+        except Exception: return ftoks
+        depth = 0; cur_start = fp.params_open + 1; pieces = []   # (start, end) token ranges of the parameters
+        for j in range(fp.params_open + 1, fp.params_close + 1):
+            t = ftoks[j]
+            if j == fp.params_close or (t.kind == 'punct' and t.text == ',' and depth == 0):
+                pieces.append((cur_start, j)); cur_start = j + 1; continue
+            if t.kind == 'punct' and (t.text in rsx.OPEN or t.text == '<'): depth += 1
+            elif t.kind == 'punct' and (t.text in rsx.CLOSE or t.text == '>'): depth -= 1
+            elif t.kind == 'punct' and t.text == '>>': depth -= 2
+        edits = []; lets = []
+        for k, (a_, b_) in enumerate(pieces):
+            sig = [j for j in range(a_, b_) if ftoks[j].kind not in ('ws', 'comment')]
+            if not sig: continue
+            txt = ''.join(ftoks[j].text for j in sig)
+            if re.match(r"^(&('\w+)?(mut)?self|(mut)?self)\b", txt): continue
+            # the pattern ends at the first top-level ':' (not '::')
+            d2 = 0; colon = None
+            for j in sig:
+                t = ftoks[j]
+                if t.kind == 'punct' and t.text in rsx.OPEN: d2 += 1
+                elif t.kind == 'punct' and t.text in rsx.CLOSE: d2 -= 1
+                elif t.kind == 'punct' and t.text == ':' and d2 == 0: colon = j; break
+            if colon is None: continue
+            pat = [j for j in sig if j < colon]
+            ptxt = ' '.join(ftoks[j].text for j in pat)
+            if re.fullmatch(r'(mut )?[A-Za-z_][A-Za-z0-9_]*', ptxt): continue
+            fresh = 'p16_%d' % k
+            edits.append((pat[0], pat[-1] + 1, fresh)); lets.append('let %s = %s;' % (rsx.text_of(ftoks, pat[0], pat[-1] + 1), fresh))
+        if not edits: return ftoks
+        out = []; pos = 0
+        for a_, b_, new in edits:
+            out.append(rsx.text_of(ftoks, pos, a_)); out.append(new); pos = b_
+        out.append(rsx.text_of(ftoks, pos, it.body_open + 1)); out.append(' ' + ' '.join(lets) + ' '); out.append(rsx.text_of(ftoks, it.body_open + 1, len(ftoks)))
+        self.rule('R16')
+        return tokenize(''.join(out))
+
     # ---- R15: destructuring assignment (unsupported by Verus) -> a `let` of fresh names followed by plain assignments
     def normalise_destructuring_assign(self, toks):
         """`(p0, p1, ..) = E;` at statement level, every p_i a side-effect-free place (identifier / field path) or `_`, is by
@@ -861,6 +905,7 @@ class Extractor:
         # ---------- R phase
         ftoks = self.expand_macros(ftoks) if self.macros else ftoks
         ftoks = self.apply_shims(ftoks)
+        ftoks = self.normalise_param_patterns(ftoks)
         ftoks = self.normalise_destructuring_assign(ftoks)
         if getattr(self, 'inline_plan', None) and name not in self.inline_plan:
             ftoks = self.inline_helpers(ftoks, self.inline_plan, self_name=name)
